@@ -1,5 +1,5 @@
 """C05 finding: Emcee.samples_via_internal_from pairs the thinned chain with a shifted, unthinned
-slice of the log-probabilities.  Run:  /venv/bin/python findings/C05-emcee-logprob-slice.py
+slice of the log-probabilities.  FIXED in /repo by 97df212 (the script now exits 0).  Run:  /venv/bin/python findings/C05-emcee-logprob-slice.py
 One walker walks a = 0, 1, 2, ... with log-likelihood -a (flat prior).  Every returned sample must
 carry log_likelihood == -a; the pinned code reports the log-probability of a different step."""
 import atexit, os, shutil, sys, tempfile
